@@ -302,6 +302,10 @@ def two_items(async_):
         st.accessors = {"A": a, "B": b}
         calls = []
         a.watch(lambda s, o, nv: calls.append("A"))
+        if sx.choice("second_item_watched_only_after_a_first_update", 2):
+            # an observer registered later (after updates have already gone by) is served like any other
+            st.replace_status_block_segment(0, old[0:1])           # an update that changes nothing
+            del calls[:]
         b.watch(lambda s, o, nv: calls.append("B"))
         st.replace_status_block_segment(offset, patch)
         new = st.status_block
